@@ -88,6 +88,14 @@ def gen_case(rng, force=None, kind=None, offslot=False):
             a = rng.randint(1, len(res) - 3)
             b = a + rng.randint(1, min(3, len(res) - 2 - a))
             cut = [i for i in range(a, b) if i not in keep_target[:1]]
+            if cut and rng.random() < 0.35 and sum(len(x) for x in res) >= 40:
+                # the residue before the gap lacks its C, or the residue after it lacks its N
+                if rng.random() < 0.5 and min(cut) - 1 >= 0 and res[min(cut) - 1][0].resn != "PRO":
+                    res[min(cut) - 1] = [x for x in res[min(cut) - 1] if x.name != "C"]
+                    kind = "gap+missing-C-before-it"
+                elif max(cut) + 1 < len(res) and res[max(cut) + 1][0].resn != "PRO":
+                    res[max(cut) + 1] = [x for x in res[max(cut) + 1] if x.name != "N"]
+                    kind = "gap+missing-N-after-it"
             res = [r for i, r in enumerate(res) if i not in cut]
         idx = [i for i, r in enumerate(res) if r[0].resn == target]
         ti = rng.choice(idx)
